@@ -366,6 +366,9 @@ def str_method(eng, bm, obj, name, args, kwargs, node):
         return z3.SuffixOf(S(args[0]), s)
     if name == "format":
         return z3.FreshConst(z3.StringSort(), "fmt")
+    if name in ("casefold", "lower", "upper", "strip"):
+        f = z3.Function(f"str_{name}", z3.StringSort(), z3.StringSort())      # uninterpreted: a function of the string
+        return f(s)
     if name == "join":
         return z3.FreshConst(z3.StringSort(), "joined")
     raise Unsupported(f"str.{name} on symbolic string")
